@@ -106,7 +106,8 @@ def handle : List String → String
       | some hdr, some jobs, some couts =>
         let out := runWorkflow lower hdr jobs jobs couts
         let sorted := out.toArray.qsort (fun a b => a.1 < b.1) |>.toList
-        ";".intercalate (sorted.map fun (t, errs) => s!"{t}={"|".intercalate (errs.map errS)}")
+        ";".intercalate (sorted.map fun (t, errs) =>
+          s!"{t}={"|".intercalate ((errs.map errS).toArray.qsort (· < ·) |>.toList)}")
       | _, _, _ => "bad-op"
     | _ => "bad-op"
   | _ => "bad-op"
